@@ -799,7 +799,27 @@ var stdTable = map[string]stdEffect{
 	"(*sync.Pool).Put":                {writeDeep: []int{0}},
 	"(*sync.Once).Do":                 {writeDeep: []int{0}, callsArg: []int{1}},
 	"unicode/utf8.RuneLen":            {pure: true},
-	"strconv.Itoa":                    {pure: true},
+	// encoding/binary: the byte orders are stateless values; Put* fill the slice they are given
+	"(encoding/binary.bigEndian).PutUint16":       {writeElem: []int{1}},
+	"(encoding/binary.bigEndian).PutUint32":       {writeElem: []int{1}},
+	"(encoding/binary.bigEndian).PutUint64":       {writeElem: []int{1}},
+	"(encoding/binary.littleEndian).PutUint16":    {writeElem: []int{1}},
+	"(encoding/binary.littleEndian).PutUint32":    {writeElem: []int{1}},
+	"(encoding/binary.littleEndian).PutUint64":    {writeElem: []int{1}},
+	"(encoding/binary.bigEndian).Uint16":          {pure: true},
+	"(encoding/binary.bigEndian).Uint32":          {pure: true},
+	"(encoding/binary.bigEndian).Uint64":          {pure: true},
+	"(encoding/binary.littleEndian).Uint16":       {pure: true},
+	"(encoding/binary.littleEndian).Uint32":       {pure: true},
+	"(encoding/binary.littleEndian).Uint64":       {pure: true},
+	"(encoding/binary.bigEndian).AppendUint64":    {retArg: []int{1}, writeElem: []int{1}},
+	"(encoding/binary.littleEndian).AppendUint64": {retArg: []int{1}, writeElem: []int{1}},
+	"encoding/binary.PutUvarint":                  {writeElem: []int{0}},
+	"encoding/binary.PutVarint":                   {writeElem: []int{0}},
+	"encoding/binary.Uvarint":                     {pure: true},
+	"encoding/binary.Varint":                      {pure: true},
+	"encoding/binary.AppendUvarint":               {retArg: []int{0}, writeElem: []int{0}},
+	"strconv.Itoa":                                {pure: true},
 }
 
 // statelessPkgs: standard packages whose package-level functions keep no state and never write
